@@ -1023,15 +1023,17 @@ func genKind(r *rand.Rand, kind string) core.Case {
 		return genLockPartition(r)
 	case "unsafe":
 		return genUnsafe(r)
+	case "late-polka":
+		return genLatePolka(r)
 	default:
 		return genSched(r, kind == "sched-long", false)
 	}
 }
 
 func genAll(r *rand.Rand, tier string, emit func(core.Case)) {
-	nSched, nHappy, nLock, nUnsafe := 1400, 600, 350, 150
+	nSched, nHappy, nLock, nUnsafe, nLate := 1400, 600, 350, 150, 200
 	if tier == "thorough" {
-		nSched, nHappy, nLock, nUnsafe = 14000, 6000, 3500, 1500
+		nSched, nHappy, nLock, nUnsafe, nLate = 14000, 6000, 3500, 1500, 2000
 	}
 	for i := 0; i < nSched; i++ {
 		emit(genSched(r, tier == "thorough", false))
@@ -1044,5 +1046,8 @@ func genAll(r *rand.Rand, tier string, emit func(core.Case)) {
 	}
 	for i := 0; i < nUnsafe; i++ {
 		emit(genUnsafe(r))
+	}
+	for i := 0; i < nLate; i++ {
+		emit(genLatePolka(r))
 	}
 }
